@@ -1122,6 +1122,32 @@ def construction_assumptions():
 
 
 # ------------------------------------------------------------------------------------------------
+# ------------------------------------------------------------------------------------------------
+# history / object-identity probes (harness/histories.py): C19 speaks about every codec call, so its entry points are those the codec
+# properties describe, taken over as they are (name / group / domain prefixed by the module); C19's own machinery above is untouched
+HIST_MODULES = ("c01", "c03", "c04", "c05", "c11", "c12", "c13", "c14", "c15", "c16", "c02", "c06", "c09", "c10")
+
+
+def ENTRY_POINTS():
+    import importlib
+
+    out = []
+    for m in HIST_MODULES:
+        try:
+            mod = importlib.import_module(f"props.{m}")
+            eps = getattr(mod, "ENTRY_POINTS", None)
+            eps = eps() if callable(eps) else (eps or [])
+        except Exception:  # noqa: a module whose adapter cannot be built here is that module's business
+            continue
+        for e in eps:
+            e.name = f"{m}:{e.name}"
+            e.group = f"{m}:{e.group}"
+            if e.domain is not None:
+                e.domain = f"{m}:{e.domain}"
+            out.append(e)
+    return out
+
+
 def run(ctx):
     from props.c19_model import model_lines  # correspondence with the Lean model (history-free model + inventory)
 
@@ -1910,6 +1936,12 @@ def run(ctx):
     if source_fingerprint() != fp0:
         raise Infra("the source tree of okdmr.dmrlib changed while the check was running (results of different moments are not comparable); run again")
 
+    # ---------------- generic history / object-identity probes on the entry points of the codec modules
+    import histories as _hist_engine  # (`histories` is a local of this function)
+
+    _hist_engine.run(ctx, ENTRY_POINTS)
+    phase("history-probes")
+
     # ---------------- correspondence with the Lean model: history-free model of the modelled entry points + inventory
     if not ctx.search_only and ctx.driver_ok:
         clocks = {AMBIENT[k][0][0]: amb_res.get(k) or {} for k in sorted(AMBIENT)}
@@ -1923,6 +1955,10 @@ def replay(obj):
     inp = f.get("input") or {}
     hist = inp.get("history")
     print(json.dumps(obj.get("type")), f.get("kind"), "-", f.get("what"))
+    if str(f.get("kind", "")).startswith("history:"):
+        import histories
+
+        return histories.replay(inp, ENTRY_POINTS)
     if inp.get("construct"):
         # construction probe: the target is examined again in a fresh fork server
         res = parallel([{"op": "graph", "targets": [inp["construct"]]}], 1)[0]["r"][0]
